@@ -344,6 +344,9 @@ class Verdict:
             payload = dict(payload)
             payload["property"] = self.prop
             payload["signature"] = sig
+            payload.setdefault("seed", int(os.environ.get("VERIF_SEED", "1")))
+            payload.setdefault("tier", getattr(self, "tier", os.environ.get("VERIF_TIER", "quick")))
+            payload.setdefault("how_to_replay", "./check %s --replay <this file>" % self.prop)
             path = write_replay(self.prop, payload)
             print("VIOLATION property=%s replay=%s%s" % (self.prop, path, "" if found else " no-failing-input-found"))
             if len(seen) >= 12:
